@@ -336,6 +336,15 @@ pub fn execute_with(f: &Fam, presented: Option<&[u8]>, extra: &ExecExtra) -> Obs
             // position of "--seed -" among the file seeds (bita always consumes stdin first)
             opts.seed_stdin_at = Some(gen::draw(opts.seeds.len() as u32 + 1) as usize);
         }
+        // one clone in eight that was NOT given `--seed -` finds data on its standard input all the
+        // same (it runs inside a shell loop, behind a pipe): the source itself, i.e. every chunk
+        // it could wish for. Nobody asked it to read that: what it fetches, writes and reports
+        // must be what it would be on a terminal (automut s_clone_cmd-L253: `&&` -> `||` in
+        // "seed_stdin && stdin is not a terminal")
+        if stdin_data.is_none() && gen::chance(1, 8) {
+            stdin_data = Some(f.made.source.to_vec());
+            simkit::count("probe:stray-data-on-stdin-without-seed-option");
+        }
         scen::set_stdin(stdin_data);
         match &f.prior {
             Some(p) => {
